@@ -49,6 +49,7 @@ def unparse_by_tlc(patterns, report=None):
         if not d["back"]:
             raise MachineryError("JasmSyntax: Parse(Unparse(p)) # p for a universe pattern")
         res.append({k: doc_native(d[k]) for k in ("body", "sib", "upper", "ints")})
+        res[-1]["rx"] = d["rx"]
     return res
 
 
